@@ -703,9 +703,15 @@ def _xr_reproject_ds(
     else:
         dst_geobox = src.odc.output_geobox(how, **kw_gbox)
 
+    sdims = src.odc.spatial_dims
+    assert sdims is not None
+
     def _maybe_reproject(dv: xarray.DataArray):
-        if dv.odc.geobox is None:
-            # pass-through data variables without a geobox
+        if dv.odc.geobox is None or not set(sdims).issubset(dv.dims):
+            # pass-through data variables without a geobox, and those that do
+            # not span the spatial dimensions of the dataset: seen on their own
+            # their last two dimensions would be taken for spatial ones and the
+            # CRS coordinate they share with the rasters would "register" them
             strip_coords = [str(c.name) for c in _locate_crs_coords(dv)]
             if len(strip_coords) > 0:
                 dv = dv.drop_vars(strip_coords)
